@@ -5,6 +5,6 @@ CONSTANTS
   MaxSteps = 5
   Classes = {"GoodKA", "GoodClose", "BadLine", "BadHeader", "BadCL", "BadChunk", "BadEscape", "Nul", "TlsHello", "Truncate", "Rest"}
   Racing = TRUE
-  DefectSets = {{}, {"keepbuf", "echo505"}}
+  DefectSets = {{}, {"keepbuf"}, {"echo505"}, {"keepbuf", "echo505"}}
 INVARIANT TypeOK
 CHECK_DEADLOCK FALSE
